@@ -15,16 +15,27 @@ def _init(scratch_dir):
     os.environ["VERIF_POOL_SCRATCH"] = scratch_dir
 
 
+JOB_LIMIT_S = int(os.environ.get("VERIF_JOB_LIMIT", "900"))
+
+
+def _guarded(arg):
+    """one job under a time limit: a library call that loops for ever in Python code ends the job with CallTimeout, which ./check
+    reports as a verdict (a loop inside compiled code cannot be interrupted this way and is left to the watchdog of ./check)"""
+    fn, x = arg
+    with common.time_limited(JOB_LIMIT_S):
+        return fn(x)
+
+
 def pmap(fn, items, workers: int = 12, chunksize: int = 1):
     items = list(items)
     if not items:
         return []
     if workers <= 1 or len(items) < 4:
-        return [fn(x) for x in items]
+        return [_guarded((fn, x)) for x in items]
     ctx = mp.get_context("spawn")
     with ProcessPoolExecutor(max_workers=min(workers, len(items)), mp_context=ctx,
                              initializer=_init, initargs=(str(common.scratch()),)) as ex:
-        return list(ex.map(fn, items, chunksize=chunksize))
+        return list(ex.map(_guarded, [(fn, x) for x in items], chunksize=chunksize))
 
 
 def worker_scratch():
